@@ -218,6 +218,13 @@ def random_case(ctx, n, mon):
             t0 = q.targets[rng.randrange(len(q.targets))]
             q.targets.append(ir.Target(t0.expr, t0.alias))
         q.order_by = qg.order_keys(q) if rng.random() < 0.85 else None
+    if rng.random() < 0.2:
+        # a sub-select in the condition (with or without a FROM clause of its own) whose output carries the name of an
+        # ORDER BY key or of another output: name resolution of the enclosing statement must not be disturbed by it
+        onames = [k.value for k in (q.order_by or []) if k.kind == 'name'] or [ir.target_name(t) for t in q.targets]
+        m = qg.membership(name=rng.choice(onames) if rng.random() < 0.8 else None)
+        q.where = m if q.where is None else (ir.and_(q.where, m) if rng.random() < 0.5 else ir.or_(m, q.where))
+        ctx.count('random.subselect_in_condition')
     q.distinct = rng.random() < 0.3
     q.limit = limits_for(rng, len(mt.rows))
     if q.distinct:
